@@ -2,6 +2,7 @@ package props
 
 import (
 	"fmt"
+	"os"
 	"strings"
 	"testing"
 
@@ -33,7 +34,8 @@ type C14Case struct {
 
 var c14Places = []string{"text", "literal", "string", "string-esc", "mapkey", "css", "msgtext", "global", "param-content", "switch-case", "mapvalue", "listitem"}
 
-var c14Pieces = []string{"'", "\"", "\\", "\n", "\r", "\t", "\u2028", "\u2029", "</script>", "<!--", "]]>", "𝄞", "\U0010FFFF", "\U000E0001", "é", "日本", "a", "b", " ", "0", "=", "&", "<", ">", "/", "`", "${x}", "\x00", "\x01", "\x1f", "\x7f", "\u0085", " ", "\ufeff", "\\n", "\\u0041", "'+alert(1)+'", "*/", "/*", "//", "{", "}", ";", ":", ",", "-->", "\v", "\f", "\b", "%", "$", "#"}
+var c14Pieces = []string{"'", "\"", "\\", "\n", "\r", "\t", "\u2028", "\u2029", "</script>", "<!--", "]]>", "𝄞", "\U0010FFFF", "\U000E0001", "é", "日本", "a", "b", " ", "0", "=", "&", "<", ">", "/", "`", "${x}", "\x00", "\x01", "\x1f", "\x7f", "\u0085", " ", "\ufeff", "\\n", "\\u0041", "'+alert(1)+'", "*/", "/*", "//", "{", "}", ";", ":", ",", "-->", "\v", "\f", "\b", "%", "$", "#",
+	"1a", "010", "1e1", "0x10", "00", "1", "-1", "1.5", "class", "default", "function", "constructor", "toString", "hasOwnProperty", "__proto__", "prototype", "length", "a-b", "a.b", "\u00e9", "é"}
 
 func genC14(t *rapid.T) C14Case {
 	c := C14Case{Namespace: rapid.SampledFrom([]string{"a", "a.b", "a.b.c", "ns1.sub_2.x.y", "soyapp.views"}).Draw(t, "ns"), TwoFiles: rapid.Bool().Draw(t, "twoFiles")}
@@ -161,6 +163,13 @@ func needsJSEscape(s string) bool {
 var c14rec *recorder
 
 func checkC14(c C14Case) Verdict {
+	if os.Getenv("VERIF_WITNESS") == "" && findingOpen("F35") {
+		for _, l := range c.Lits {
+			if l.Place == "mapkey" && l.S == "__proto__" {
+				return excluded("known finding F35: map literal key __proto__")
+			}
+		}
+	}
 	pc, want := buildC14(c)
 	names, srcs := gen.Sources(&pc.Prog)
 	// the model's own account of the output must agree with the reference interpreter (guards the harness)
